@@ -95,7 +95,24 @@ TrFinal == /\ Is("final") /\ pend = {} /\ lind = {}
            /\ SnapOK(boxes)
            /\ UNCHANGED <<cvars, pend, lind>> /\ Mark
 
-TraceNext == TrReset \/ TrAdd \/ TrInv \/ Lin \/ Enforcer \/ TrRes \/ TrFinal
+(* first touch: several clients delivered to a brand-new mailbox at the same    *)
+(* moment; every delivery that returned an id is there, no id was given twice   *)
+(* (cap and size limit are off in these histories)                              *)
+TrBurst ==
+    /\ Is("burst") /\ cap = 0 /\ limit = 0 /\ boxes[Ev.mb] = <<>>
+    /\ \A i \in DOMAIN Ev.adds : Ev.adds[i].r = "ok"
+    /\ \A i, j \in DOMAIN Ev.adds : i # j => Ev.adds[i].id # Ev.adds[j].id
+    /\ \E bx \in ToSet(Ev.s) :
+          /\ bx.mb = Ev.mb
+          /\ Len(bx.msgs) = Len(Ev.adds)
+          /\ ToSet(bx.msgs) = {NewMsg(Ev.adds[i].id, Ev.adds[i].meta, Ev.adds[i].size) : i \in DOMAIN Ev.adds}
+          /\ boxes' = [boxes EXCEPT ![Ev.mb] = bx.msgs]
+          /\ used' = [used EXCEPT ![Ev.mb] = @ \cup {bx.msgs[i].id : i \in DOMAIN bx.msgs}]
+          /\ arrival' = arrival \o [i \in DOMAIN bx.msgs |-> <<Ev.mb, bx.msgs[i].id>>]
+    /\ SnapOK(boxes')
+    /\ UNCHANGED <<cap, limit, doomed, pend, lind>> /\ Mark
+
+TraceNext == TrBurst \/ TrReset \/ TrAdd \/ TrInv \/ Lin \/ Enforcer \/ TrRes \/ TrFinal
 TraceSpec == TraceInit /\ [][TraceNext]_tvars
 
 TraceAccepted ==
